@@ -80,3 +80,11 @@ package sts
 //@   modifies nothing
 //@ interface Cached.IsDone trusted
 //@   modifies nothing
+
+// T: the allocation cursor of a Binnable is its own state; AddAlloc touches nothing a payload reads
+//@ interface Binnable.GetNextAlloc trusted
+//@   modifies nothing
+//@ interface Binnable.AddAlloc trusted
+//@   modifies nothing
+//@ interface Binnable.IsAllocated trusted
+//@   modifies nothing
